@@ -238,7 +238,8 @@ async def _main(sim, sc, out):
         if arrival > min(t_sig, run_state["returned"]) - 20_000:
             continue  # the request itself was sent while the worker was already stopping
         if k in ("get", "burst", "late-request"):
-            if tf is None or arrival < tf - 2000:
+            # (a request is judged by when it was sent; it reaches the server up to one network latency later)
+            if tf is None or arrival < tf - 1000 - sc["knobs"]["net"]["lat_hi"]:
                 want = {"200"}
             elif arrival > tf + 2000 + 3500:
                 want = {"503"}
